@@ -23,7 +23,7 @@ pub fn check() -> Check {
         floor_thorough: 1_000_000,
         rule: "G1: every token list of length <= 3 over all tokens of <= 3 symbols, of length <= 2 over all tokens of <= 4 symbols (thorough: <= 5 symbols) and of length <= 4 over all tokens of <= 2 symbols \
                from {dash, a, e-acute, bitcoin sign, G-clef, space} plus the empty token, classified by ArgList (built from the NUL-joined raw form, independent of the tokenizer) and compared with a reference classifier; \
-               G2: random lists of up to 12 tokens, both through ArgList and typed (quoted) through a whole Cli to the handler. The iterator must also be fused. \
+               the same over the length-boundary characters U+07FF, U+0800, U+FFFF, U+10000, U+10FFFD; every scalar value U+0001..U+10FFFF alone, leading, after one and two dashes and inside a cluster; G2: random lists of up to 12 tokens, both through ArgList and typed (quoted) through a whole Cli to the handler. The iterator must also be fused. \
                Non-trivial = the list contains `--`, a cluster with a multi-byte character, `-` alone, an empty token or a token starting with three dashes; distinct by list content.",
         assumptions: &[
             "tokens contain no NUL (NUL is the internal separator and cannot be typed)",
